@@ -24,8 +24,7 @@ def cli_fault(run, pair, fault, threads, mbm):
     return res.exit_code, rec.fault_fired
 
 
-def main():
-    run = Run('C09')
+def body(run):
     run.regenerate()
     run.build(extra_targets=['theories/Corr/CheckC04.v'])
     rng = run.rng('fault')
@@ -127,8 +126,7 @@ def main():
     run.extra['input_distribution'] = dict(runs=dist, observed_block_traces=len(cases), model_nontrivial=nt)
     run.trusted += ['Python with / try-finally / ThreadPoolExecutor / as_completed / Future.result semantics as encoded in Conc/IR.v, Conc/Sem.v, Conc/Coord.v',
                     'liveness beyond the protocol (a hang inside GDAL) is only a wall-clock test; faults in tags / overviews / close are outside the property (block failures)']
-    run.finish()
 
 
 if __name__ == '__main__':
-    main()
+    Run('C09').guard(body)
